@@ -612,3 +612,126 @@ func (d *driver) stageCLI() {
 		d.addListing(cache, "cli/"+s.name, desc)
 	}
 }
+
+// ---- wave 3 -----------------------------------------------------------------------------------
+
+// stageEtagShapes: the update histories of the crash stage (build, update, build, roll-back, …, offline)
+// with the origin naming its index revisions by ETags of other shapes: ~140 bytes that differ only in
+// their tail, weak validators with characters that base32 expands. Every build is compared with the build
+// WITHOUT cache and the scenario is replayed on the model (the etag is an opaque name there: the file
+// name must be an injective function of it, c19_etag_file_name_injective).
+func (d *driver) stageEtagShapes() {
+	defer d.w.setStyle("default")
+	for _, st := range []string{"long-tail", "expanding"} {
+		d.w.setStyle(st)
+		d.runScenario("update/etag-"+st, "solo", []sbuild{{Rev: 0}, {Rev: 1}, {Rev: 0}, {Rev: 2}, {Rev: 1}})
+		if d.tier == "thorough" {
+			d.runScenario("update-idx-kill/etag-"+st, "solo", []sbuild{{Rev: 0}, {Rev: 1, Crash: crashSpec{"idx", 4}}, {Rev: 1}, {Rev: 0}})
+			d.runScenario("update-between-head-and-get/etag-"+st, "solo", []sbuild{{Rev: 0, Flip: 1}, {Rev: 0}, {Rev: 1}, {Rev: 0}})
+		}
+		// ... and right after each update an offline build: the revision downloaded last
+		pk := []string{"solo", "plain"}
+		cache := d.newCache()
+		for _, rev := range []int{0, 1, 2} {
+			d.w.setRev(rev)
+			r := d.w.run(runSpec{Cache: cache, Pkgs: pk})
+			desc := map[string]any{"exp": "etag-shapes", "style": st, "rev": rev, "etag_bytes": len(d.w.revs[rev].etag)}
+			d.checkBuild("etag-shapes: build after update", rev, pk, cache, r, desc)
+			time.Sleep(12 * time.Millisecond)
+			o := d.w.run(runSpec{Cache: cache, Pkgs: pk, Offline: true})
+			out := "error"
+			if o.Res.OK && o.Res.Digest == d.ref(rev, pk) {
+				out = "last-downloaded"
+			} else if o.Res.OK {
+				out = "OTHER"
+				d.violation("offline-uses-an-older-cached-revision", map[string]any{"exp": "etag-shapes", "style": st, "rev": rev, "offline_digest": o.Res.Digest, "want": d.ref(rev, pk),
+					"what": "build, update, build on one cache directory; the offline build after the update is not the image of the revision downloaded last"})
+			}
+			d.count("etag_shapes_offline", st+"="+out)
+			d.emitOffline(cache, d.w.indexURL(), "APKINDEX.tar.gz", "etag-shapes/offline-pick", map[string]any{"exp": "etag-shapes", "style": st, "name": fmt.Sprintf("after-rev-%d", rev)}, d.w.classifyIndex)
+		}
+	}
+}
+
+// stageEtagTooLong: replay of finding C19-F8. An index revision whose ETag has more than 154 bytes: its base32
+// form plus ".tar.gz" exceeds NAME_MAX (255), AdvertiseCachedFile's symlink fails with ENAMETOOLONG, and the build
+// WITH the cache fails — every time, there is no fall-back to the response that was just downloaded — while the build
+// without cache succeeds.
+func (d *driver) stageEtagTooLong() {
+	defer d.w.setStyle("default")
+	d.w.setStyle("huge")
+	pk := []string{"solo"}
+	d.w.setRev(0)
+	if r0 := d.w.run(runSpec{Pkgs: pk}); !r0.Res.OK || r0.Res.Digest != d.ref(0, pk) {
+		fmt.Fprintf(os.Stderr, "etag-too-long: the build without cache fails or differs under a long ETag: %+v\n", r0.Res)
+		d.bail()
+	}
+	cache := d.newCache()
+	for i := 0; i < 2; i++ {
+		r := d.w.run(runSpec{Cache: cache, Pkgs: pk})
+		desc := map[string]any{"exp": "etag-too-long", "etag_bytes": len(d.w.revs[0].etag), "file_name_chars": len(d.w.revs[0].b32) + len(".tar.gz"), "build": i + 1}
+		switch {
+		case !r.Res.OK && strings.Contains(r.Res.Err, "file name too long"):
+			desc["err"] = r.Res.Err[len(r.Res.Err)-min(len(r.Res.Err), 160):]
+			desc["what"] = "the build with the cache fails for an index whose ETag does not fit into a file name; the build without cache succeeds"
+			d.violation("etag-too-long-for-a-file-name", desc)
+			d.count("etag_too_long", "build-with-cache-fails")
+		default:
+			d.checkBuild("etag-too-long", 0, pk, cache, r, desc)
+			d.count("etag_too_long", fmt.Sprintf("ok=%v", r.Res.OK))
+		}
+	}
+}
+
+// stageSharedEtag: TWO repositories behind one shared apk.Cache whose indexes carry the SAME ETag value
+// (identical strings; and a weak/strong pair), both entries cold, the two index downloads of the build
+// made to overlap by the origin. What each repository's caller gets must be what THAT repository serves:
+// every build (cold, warm, offline) is compared with the build WITHOUT cache.
+func (d *driver) stageSharedEtag() {
+	pk := []string{"app", "solo"}
+	repos := []string{d.w.srv.URL + "/repo", d.w.srv.URL + "/repo2"}
+	set := func(rev2 int, same string, overlap int) {
+		d.w.mu.Lock()
+		d.w.repo2rev, d.w.sameEtag, d.w.overlap, d.w.arrived = rev2, same, overlap, 0
+		d.w.mu.Unlock()
+	}
+	defer set(-1, "", 0)
+	for _, same := range []string{`"one-etag-for-every-index"`, `W/"one-etag-for-every-index"`} {
+		d.w.setRev(0)
+		set(1, same, 0)
+		ref := d.w.run(runSpec{Pkgs: pk, Repos: repos})
+		ref2 := d.w.run(runSpec{Pkgs: pk, Repos: repos})
+		if !ref.Res.OK || ref.Res.Digest != ref2.Res.Digest {
+			fmt.Fprintf(os.Stderr, "shared-etag: reference build with two repositories failed or is not reproducible: %+v\n", ref.Res)
+			d.bail()
+		}
+		cache := d.newCache()
+		for _, step := range []string{"cold-overlapping", "warm", "offline"} {
+			ov := 0
+			if step == "cold-overlapping" {
+				ov = 2
+			}
+			set(1, same, ov)
+			r := d.w.run(runSpec{Cache: cache, Pkgs: pk, Repos: repos, Offline: step == "offline"})
+			out := "same"
+			desc := map[string]any{"exp": "shared-etag", "etag": same, "step": step, "repositories": []string{"<origin>/repo (revision 0)", "<origin>/repo2 (revision 1)"},
+				"err": r.Res.Err, "digest": r.Res.Digest, "want": ref.Res.Digest,
+				"what": "two repositories whose indexes carry the same ETag value, one shared apk.Cache, cold cache, overlapping index downloads"}
+			switch {
+			case !r.Res.OK && step == "offline":
+				out = "error"
+			case !r.Res.OK:
+				out = "FAILS"
+				d.violation("build-with-cache-fails", desc)
+			case r.Res.Digest != ref.Res.Digest:
+				out = "DIFFERENT"
+				tag := "digest-differs-with-cache"
+				if step == "offline" {
+					tag = "offline-digest-differs"
+				}
+				d.violation(tag, desc)
+			}
+			d.count("shared_etag_two_repositories", fmt.Sprintf("%s %s=%s", same, step, out))
+		}
+	}
+}
